@@ -296,7 +296,7 @@ Theorem C05_every_way_same : forall c pd f ai, valid_c c -> enough (c_fmt c) pd 
   let n := f_frames (c_fmt c) in
   (forall cache, snd (st_one (Img c pd cache) f ai) = answer c pd f ai) /\
   (forall cache, snd (st_batch (Img c pd cache) [f] ai) = rmap (fun a => [a]) (answer c pd f ai)) /\
-  lz_one (LImg c pd None) f ai = rmap (pair c) (answer c pd f ai) /\
+  snd (lz_one (LImg c pd None) f ai) = answer c pd f ai /\
   (forall i, std_index n f ai = Ok i ->
      exists fs, whole_array_c c pd = Ok fs /\ answer c pd f ai = Ok (nth (Z.to_nat i) fs [])) /\
   (forall lazy, bind (get_raw_frame lazy (c_fmt c) pd f ai) (fun raw =>
@@ -370,41 +370,31 @@ Proof. exact read_file_is_read_pixeldata. Qed.
 Print Assumptions C05_reader_file_is_pixeldata.
 
 (* ---- lazily read image under histories ---- *)
-(* any history in which header edits that change something come before the first pixel_array call:
-   the lazily read image answers exactly as the in-memory image and as the cache-free reference *)
-Theorem C05_lazy_history : forall ops c pd, lops_valid (c, pd) false ops ->
+(* ANY history of reads (pixel_array, single, batch, raw, decode raw) and header edits on a lazily read
+   image: every answer is the one the in-memory image gives and the one a cache-free reading of the
+   current description and the file gives.  (Before the D105 fix this was false - a header edit after
+   pixel_array was ignored; found by this check: corpus/C05/lazy_stale_after_edit.json.) *)
+Theorem C05_lazy_history : forall ops c pd, ops_valid (c, pd) (map op_of_lop ops) ->
   lrun_ops (LImg c pd None) ops = run_ops (Img c pd None) (map op_of_lop ops) /\
   lrun_ops (LImg c pd None) ops = ref_ops (c, pd) (map op_of_lop ops).
 Proof. exact lazy_equals_in_memory. Qed.
 Print Assumptions C05_lazy_history.
 
-(* from ANY coherent state (whatever was read before) *)
-Theorem C05_lazy_history_from : forall ops st cached, lcoherent st -> (l_cache st <> None -> cached = true) ->
-  lops_valid (lcontent st) cached ops ->
+(* from ANY state whose cached array (if any) was decoded from the file under the description recorded
+   with it - in particular with a STALE cache *)
+Theorem C05_lazy_history_from : forall ops st, lcoherent st -> ops_valid (lcontent st) (map op_of_lop ops) ->
   lrun_ops st ops = ref_ops (lcontent st) (map op_of_lop ops).
 Proof. exact lazy_history. Qed.
 Print Assumptions C05_lazy_history_from.
 
-(* reads only (pixel_array, single, batch, raw, decode raw), in any order and number *)
-Theorem C05_lazy_reads_any_order : forall ops c pd, valid_c c -> enough (c_fmt c) pd ->
-  forallb is_read ops = true ->
-  lrun_ops (LImg c pd None) ops = ref_ops (c, pd) (map op_of_lop ops).
-Proof. exact lazy_reads_any_order. Qed.
-Print Assumptions C05_lazy_reads_any_order.
-
-(* FULL statement (no condition on when edits happen; true of the in-memory image: C05_history_irrelevant):
-     forall ops c pd, ops_valid (c, pd) (map op_of_lop ops) ->
-       lrun_ops (LImg c pd None) ops = ref_ops (c, pd) (map op_of_lop ops)
-   is FALSE of the code: a header edit after pixel_array is ignored by every later read (finding, replayed
-   on the real code: /verif/corpus/C05/lazy_stale_after_edit.json) *)
-Theorem C05_lazy_history_refuted :
-  exists c pd ops, ops_valid (c, pd) (map op_of_lop ops) /\
-    lrun_ops (LImg c pd None) ops <> ref_ops (c, pd) (map op_of_lop ops) /\
-    lrun_ops (LImg c pd None) ops <> run_ops (Img c pd None) (map op_of_lop ops) /\
-    nth 2 (lrun_ops (LImg c pd None) ops) VNone = VL [meta c; vz_list [65535; 1]] /\
-    nth 2 (ref_ops (c, pd) (map op_of_lop ops)) VNone = VL [meta wit_c'; vz_list [-1; 1]].
-Proof. exact lazy_history_refuted. Qed.
-Print Assumptions C05_lazy_history_refuted.
+(* pixel_array of a lazily read image: the decode of the file under the CURRENT description, description
+   and file untouched, and an array is cached afterwards (so later reads do take the validation branch) *)
+Theorem C05_lazy_pixel_array_current : forall st, valid_c (l_c st) -> enough (c_fmt (l_c st)) (l_pd st) -> lcoherent st ->
+  snd (lz_whole st) = Ok (map (spec_frame_c (l_c st) (l_pd st)) (zrange (f_frames (c_fmt (l_c st))))) /\
+  lcontent (fst (lz_whole st)) = lcontent st /\ lcoherent (fst (lz_whole st)) /\
+  l_cache (fst (lz_whole st)) <> None.
+Proof. exact lz_whole_spec. Qed.
+Print Assumptions C05_lazy_pixel_array_current.
 
 (* ---- non-vacuity of the extension ---- *)
 (* two frames, the first in two fragments (FF D8 ..; plain), the second one fragment (FF 4F ..); no table *)
@@ -424,17 +414,18 @@ Proof.
 Qed.
 Print Assumptions C05_example_encaps_bytes.
 
-(* lazily read image: frame read, PixelRepresentation corrected BEFORE the first pixel_array, then whole
-   array, single frame from the cache, batch: an acceptable history with an edit that changes the answers *)
+(* lazily read image: whole array cached, PixelRepresentation corrected AFTER that, then single frame, batch
+   and whole array again: all from the file under the new description (the stale cache held 65535) *)
 Example C05_example_lazy_history :
-  let ops := [LOne 1 false; LHeader wit_c'; LWhole; LOne 1 false; LBatch [2; 1] false] in
-  lops_valid (wit_c, wit_pd) false ops /\
+  let ops := [LWhole; LHeader wit_c'; LOne 1 false; LBatch [2; 1] false; LWhole] in
+  ops_valid (wit_c, wit_pd) (map op_of_lop ops) /\
   run_lazy_history wit_c wit_pd ops =
-    VL [VL [meta wit_c; vz_list [65535; 1]]; VNone; VL [meta wit_c'; vz_list2 [[-1; 1]; [2; 3]]];
-        VL [meta wit_c'; vz_list [-1; 1]]; VL [meta wit_c'; vz_list2 [[2; 3]; [-1; 1]]]].
+    VL [VL [meta wit_c; vz_list2 [[65535; 1]; [2; 3]]]; VNone; VL [meta wit_c'; vz_list [-1; 1]];
+        VL [meta wit_c'; vz_list2 [[2; 3]; [-1; 1]]]; VL [meta wit_c'; vz_list2 [[-1; 1]; [2; 3]]]].
 Proof.
   cbv zeta. split; [|vm_compute; reflexivity].
-  cbn [lops_valid fst snd]. unfold valid_c, valid_fmt, enough. cbn [wit_c wit_c' c_fmt c_planar f_bits f_npx f_frames].
+  cbn [map op_of_lop ops_valid ref_step fst snd]. unfold valid_c, valid_fmt, enough.
+  cbn [wit_c wit_c' c_fmt c_planar f_bits f_npx f_frames].
   repeat split; try (vm_compute; congruence); auto; try discriminate.
 Qed.
 Print Assumptions C05_example_lazy_history.
